@@ -45,6 +45,8 @@ type Invocation struct {
 	// bytes are not compared; what is checked is that the list is untouched and that the *following*
 	// calls still write what they write alone ("writing the same list twice" after a failed attempt).
 	SinkFault *simio.WriteFault `json:"sink_fault,omitempty"`
+	// Sink: "" plain io.Writer; "rich": the destination also offers io.StringWriter, io.ByteWriter, io.ReaderFrom
+	Sink string `json:"sink,omitempty"`
 }
 
 // Episode is one replayable C19 case.
@@ -102,7 +104,7 @@ func invoke(s *astisub.Subtitles, writer string, env Env) callResult {
 	return invokeSink(s, writer, env, nil)
 }
 
-func invokeSink(s *astisub.Subtitles, writer string, env Env, fault *simio.WriteFault) callResult {
+func invokeSink(s *astisub.Subtitles, writer string, env Env, fault *simio.WriteFault, medium ...string) callResult {
 	var r callResult
 	r.Before = canon.Hash(s)
 	j := 0
@@ -131,8 +133,12 @@ func invokeSink(s *astisub.Subtitles, writer string, env Env, fault *simio.Write
 		r.ClockGot = append(r.ClockGot, v)
 		return time.Unix(0, v).UTC()
 	}
-	w := simio.NewWriter(simio.WritePlan{Fault: fault})
-	err, p := api.Write(writer, s, w)
+	wp := simio.WritePlan{Fault: fault}
+	if len(medium) > 0 {
+		wp.Medium = medium[0]
+	}
+	w := simio.NewWriter(wp)
+	err, p := api.Write(writer, s, w.Wrap())
 	astisub.Now = prevNow
 	hooks.SetMapOrder(nil)
 	r.Out = w.Buf
@@ -203,7 +209,7 @@ func CheckEpisode(ep Episode) (*Violation, []callResult) {
 	s := ep.Source.Build()
 	var results []callResult
 	for i, c := range ep.Calls {
-		r := invokeSink(s, c.Writer, c.Env, c.SinkFault)
+		r := invokeSink(s, c.Writer, c.Env, c.SinkFault, c.Sink)
 		results = append(results, r)
 		ref := refs[c.Writer]
 		if c.SinkFault != nil {
@@ -438,7 +444,7 @@ func RunC19(cfg Config) (*ShardResult, error) {
 				if w != "stl" && !sr.Bool(0.34) {
 					continue
 				}
-				if run(Episode{Kind: "episode", Source: src, Calls: []Invocation{{Writer: w, Env: Env{Clock: c}}, {Writer: w, Env: Env{Clock: c}}}}) {
+				if run(Episode{Kind: "episode", Source: src, Calls: []Invocation{{Writer: w, Env: Env{Clock: c}}, {Writer: w, Env: Env{Clock: c}, Sink: "rich"}}}) {
 					return res, nil
 				}
 			}
@@ -459,7 +465,7 @@ func RunC19(cfg Config) (*ShardResult, error) {
 					calls = append(calls, Invocation{Writer: api.WriterFormats[wi], Env: env,
 						SinkFault: &simio.WriteFault{Offset: sr.PickInt(0, 1, 100, 1024, 1100, 1500), Kind: simio.WriteFaultKinds[sr.Intn(len(simio.WriteFaultKinds))], Short: sr.Bool(0.5)}})
 				}
-				calls = append(calls, Invocation{Writer: api.WriterFormats[wi], Env: env})
+				calls = append(calls, Invocation{Writer: api.WriterFormats[wi], Env: env, Sink: sr.Pick("", "", "rich")})
 			}
 			if sr.Bool(0.5) { // repetition of one writer at the end
 				calls = append(calls, calls[sr.Intn(len(calls))])
@@ -503,7 +509,7 @@ func plainChild(req plainReq) plainResp {
 					break
 				}
 				sw := simio.NewWriter(simio.WritePlan{})
-				err, p := api.Write(w, s, sw)
+				err, p := api.Write(w, s, sw.Wrap())
 				switch {
 				case p != "":
 					set["panic"] = true
